@@ -12,14 +12,17 @@
 (***************************************************************************)
 EXTENDS Integers, Sequences, FiniteSets, TLC
 
-CONSTANTS Scenario,      \* Seq of stimulus names applied to a started node, in order
+CONSTANTS Routines,      \* udp sockets Main opens (one per configured routine)
+          Queues,        \* readers the tun device / udp backend supports: activate() clamps the routines to it
+          Scenario,      \* Seq of stimulus names applied to a started node, in order
           PreStart,      \* number of leading stimuli that are applied before Start (config only)
           MaxStops       \* how many stop requests are explored
 
 VARIABLES state,         \* "ready" | "started" | "stopping" | "stopped"
           phase,         \* number of scenario stimuli applied so far
           ctxLive,       \* context not cancelled
-          sockOpen, tunOpen,
+          sockOpen,      \* set of udp sockets (1..Routines) still open: every one Main opened, used by a reader or not
+          tunOpen,
           goroutines,    \* set of live goroutine classes
           stops,         \* stop requests issued so far
           hist           \* history of environment actions (for replay)
@@ -31,7 +34,8 @@ CtxBound  == {"handshakeManager", "connectionManager", "lighthouseWorker", "punc
 SockBound == {"udpReader"}
 TunBound  == {"tunReader"}
 
-Init == /\ state = "ready" /\ phase = 0 /\ ctxLive = TRUE /\ sockOpen = TRUE /\ tunOpen = TRUE
+ActiveRoutines == IF Routines < Queues THEN Routines ELSE Queues      \* readers exist for these sockets only
+Init == /\ state = "ready" /\ phase = 0 /\ ctxLive = TRUE /\ sockOpen = 1..Routines /\ tunOpen = TRUE
         /\ goroutines = {} /\ stops = 0 /\ hist = <<>>
 
 \* environment: next stimulus of the scenario (config-only stimuli before Start, the rest on a started node)
@@ -54,20 +58,20 @@ Start == /\ phase >= PreStart
 \* Control.Stop: never started -> cancel + Close at once; started -> stopping (cancel, close tunnels), then Close
 Stop == /\ stops < MaxStops /\ stops' = stops + 1
         /\ hist' = Append(hist, "Stop")
-        /\ CASE state = "ready"   -> /\ state' = "stopped" /\ ctxLive' = FALSE /\ sockOpen' = FALSE /\ tunOpen' = FALSE
+        /\ CASE state = "ready"   -> /\ state' = "stopped" /\ ctxLive' = FALSE /\ sockOpen' = {} /\ tunOpen' = FALSE
              [] state = "started" -> /\ state' = "stopping" /\ ctxLive' = FALSE /\ UNCHANGED <<sockOpen, tunOpen>>
              [] OTHER             -> UNCHANGED <<state, ctxLive, sockOpen, tunOpen>>
         /\ UNCHANGED <<phase, goroutines>>
 
 \* second half of Stop for a started node: Interface.Close
 CloseInterface == /\ state = "stopping"
-                  /\ state' = "stopped" /\ sockOpen' = FALSE /\ tunOpen' = FALSE
+                  /\ state' = "stopped" /\ sockOpen' = {} /\ tunOpen' = FALSE     \* every socket, also those beyond the clamped routines
                   /\ UNCHANGED <<phase, ctxLive, goroutines, stops, hist>>
 
 \* a goroutine notices that what it waits on is gone, and ends
 Exit(g) == /\ g \in goroutines
            /\ \/ (g \in CtxBound /\ ~ctxLive)
-              \/ (g \in SockBound /\ ~sockOpen)
+              \/ (g \in SockBound /\ sockOpen \cap (1..ActiveRoutines) = {})
               \/ (g \in TunBound /\ ~tunOpen)
            /\ goroutines' = goroutines \ {g}
            /\ UNCHANGED <<state, phase, ctxLive, sockOpen, tunOpen, stops, hist>>
@@ -78,10 +82,10 @@ Fairness == WF_vars(CloseInterface) /\ \A g \in OnStart \cup {"reloadWatcher"} :
 Spec == Init /\ [][Next]_vars /\ Fairness
 
 -----------------------------------------------------------------------------
-Released == goroutines = {} /\ ~sockOpen /\ ~tunOpen /\ ~ctxLive
+Released == goroutines = {} /\ sockOpen = {} /\ ~tunOpen /\ ~ctxLive
 \* C49: a stop request at any point leads to everything being released, and it stays released
 StopReleases == (stops > 0) ~> Released
-StaysReleased == [][(state = "stopped" /\ Released) => (state' = "stopped" /\ goroutines' = {} /\ ~sockOpen' /\ ~tunOpen' /\ ~ctxLive')]_vars
+StaysReleased == [][(state = "stopped" /\ Released) => (state' = "stopped" /\ goroutines' = {} /\ sockOpen' = {} /\ ~tunOpen' /\ ~ctxLive')]_vars
 NoRestart == [][(state \in {"stopping", "stopped"}) => (state' # "started")]_vars
 TypeOK == state \in {"ready", "started", "stopping", "stopped"} /\ phase \in 0..Len(Scenario)
 
